@@ -24,7 +24,7 @@ section
 variable (mn : Id → Option Nat) (ma : Id → Nat → Nat → Option (Nat × Nat))
 
 theorem repl_matched {id : Id} {k : Nat} (h : mn id = some k) (e : VExpr) :
-    repl mn ma id e = (do pure [← newAxis k (valueOf e) (valueRange e)]) := by
+    repl cseName mn ma id e = (do pure [← newAxis (cseName k) (valueOf e) (valueRange e)]) := by
   cases e <;> simp [repl, nodeOr, h]
 
 theorem trace_matched {id : Id} {k : Nat} (h : mn id = some k) (lvl : Bool) (e : VExpr) :
@@ -42,25 +42,25 @@ theorem used_axis_eval {k : Nat} {e : VExpr} {len : Nat} {r : Bool} (m : Nat)
   | some v => simp only [evalV]; exact (valueOf_some_eval σ e v hv).symm
 
 def RNode (t : VExpr) : Prop :=
-  ∀ (lvl : Bool) (id : Id) (ts' : List VExpr), wfV t = true → repl mn ma id t = .ok ts' →
+  ∀ (lvl : Bool) (id : Id) (ts' : List VExpr), wfV t = true → repl cseName mn ma id t = .ok ts' →
     (∀ ev ∈ trace mn ma lvl id t, GoodEv σ σ' ev) →
     natProd (evalVL σ' ts') = evalV σ t ∧ (lvl = true → evalVL σ' (itemsL ts') = evalVL σ (items t)) ∧
       (isList t = false → ∃ t', ts' = [t'])
 
 def RList (l : List VExpr) : Prop :=
   (∀ (lvl : Bool) (pid : Id) (n i skip : Nat) (ts' : List VExpr), wfVL l = true →
-    replL mn ma pid n i skip l = .ok ts' → (∀ ev ∈ traceL mn ma lvl pid n i skip l, GoodEv σ σ' ev) →
+    replL cseName mn ma pid n i skip l = .ok ts' → (∀ ev ∈ traceL mn ma lvl pid n i skip l, GoodEv σ σ' ev) →
     natProd (evalVL σ' ts') = natProd (evalVL σ (l.drop skip)) ∧
       (lvl = true → evalVL σ' (itemsL ts') = evalVL σ (itemsL (l.drop skip)))) ∧
   (∀ (lvl : Bool) (pid : Id) (k : Nat) (ts' : List VExpr), wfVL l = true →
-    replC mn ma pid k l = .ok ts' → (∀ ev ∈ traceC mn ma lvl pid k l, GoodEv σ σ' ev) →
+    replC cseName mn ma pid k l = .ok ts' → (∀ ev ∈ traceC mn ma lvl pid k l, GoodEv σ σ' ev) →
     natProd (evalVL σ' ts') = natProd (evalVL σ l) ∧
       (lvl = true → evalVL σ' (itemsL ts') = evalVL σ (itemsL l)) ∧
       (noListL l = true → evalVL σ' ts' = evalVL σ l ∧ ts'.length = l.length))
 
 /-- the node-level replacement -/
 theorem rNode_matched {id : Id} {k : Nat} (hm : mn id = some k) (t : VExpr) (lvl : Bool) (ts' : List VExpr)
-    (hr : repl mn ma id t = .ok ts') (hg : ∀ ev ∈ trace mn ma lvl id t, GoodEv σ σ' ev) :
+    (hr : repl cseName mn ma id t = .ok ts') (hg : ∀ ev ∈ trace mn ma lvl id t, GoodEv σ σ' ev) :
     natProd (evalVL σ' ts') = evalV σ t ∧ (lvl = true → evalVL σ' (itemsL ts') = evalVL σ (items t)) ∧
       (isList t = false → ∃ t', ts' = [t']) := by
   rw [repl_matched mn ma hm] at hr
